@@ -35,10 +35,10 @@ ASSUMPTIONS = [
     "optional slot with a handler contributes an entry holding the tree's "
     "value (None / [])",
 ]
-FLOORS = {"quick": {"handler_calls_checked": 10000, "error_maps": 2000},
+FLOORS = {"quick": {"handler_calls_checked": 30000, "error_maps": 6000},
           "thorough": {"handler_calls_checked": 500000,
                        "error_maps": 100000}}
-N_MODELS = {"quick": 800, "thorough": 12000}
+N_MODELS = {"quick": 2400, "thorough": 12000}
 TEXTS = {"quick": 8, "thorough": 24}
 
 
